@@ -690,6 +690,150 @@ def check_history(chk, cfg, is_map, ops, o_vers, o_results, producer, resp, mode
     chk.nontrivial.add((what, cfg.args(), tuple(ops)))
 
 
+# ------------------------------------------------------------------------------------------------ hash-keyed consumers
+# `with_count(h, e)` is the one reader of the reference `try_put_located` returns; `distinct(h, e)` is built on it.
+HASH_KEYED_EXPECTED = {"with_count", "distinct", "mapping", "set", "__std_json_deserialize"}
+STREAM_BUILDERS_EXPECTED = {"update", "update_counter", "update_from_keys"}
+HK_SIG = re.compile(r"\((\w+)\)->\(int\), \(\1, \1\)->\(bool\)")
+SB_SIG = re.compile(r"(Generator|Sequence)<.*\)->(Mapping|Set)<")
+
+
+def enumerate_hash_keyed(chk):
+    """every library function that takes a hash `(T)->(int)` with an eq `(T,T)->(bool)`, or builds a Mapping/Set from
+    a stream, read from the compiler's own signature table; a function this check does not know is reported"""
+    import glob
+    names = set(re.findall(r"^\s*fn (\w+)", open(os.path.join(REPO, "src/builtin/include.rs")).read(), re.M))
+    for f in glob.glob(os.path.join(REPO, "book/src/std/*.md")):
+        names |= set(re.findall(r"fn `(\w+)", open(f).read()))
+    for f in glob.glob(os.path.join(REPO, "src/builtin/*.rs")):
+        names |= set(re.findall(r'add_(?:dyn_)?func\(\s*"(\w+)"', open(f).read()))
+    r = run_harness([{"op": "typing", "f": "sigs", "names": sorted(names)}])[0]
+    sigs = r.get("sigs")
+    if not isinstance(sigs, dict):
+        chk.violation("tie:map:consumers:signature-table", f"the signature table could not be read: {str(r)[:300]}", {"resp": r}, no_input=True)
+        return
+    hk = {n for n, ss in sigs.items() if any(HK_SIG.search(x) for x in ss)}
+    sb = {n for n, ss in sigs.items() if any(SB_SIG.search(x) for x in ss)}
+    chk.coverage["hash_keyed_functions"] = sorted(hk)
+    chk.coverage["stream_to_collection_functions"] = sorted(sb)
+    if hk - HASH_KEYED_EXPECTED or sb - STREAM_BUILDERS_EXPECTED:
+        new = sorted((hk - HASH_KEYED_EXPECTED) | (sb - STREAM_BUILDERS_EXPECTED))
+        chk.violation("tie:map:consumers:uncovered", f"library functions keyed by a user hash/eq (or building a collection from a stream) that this check does not exercise: {new}",
+                      {"functions": new, "sigs": {n: sigs[n] for n in new}}, no_input=True)
+
+
+def gen_stream(rng, cfg, max_len):
+    """streams in which colliding-but-unequal elements recur in every order"""
+    by_hash = {}
+    for k in U:
+        hv = cfg.hash(k)
+        by_hash.setdefault(hv, {}).setdefault(cfg.cls(k), []).append(k)
+    # prefer a hash value shared by several classes
+    shared = [list(d.values()) for d in by_hash.values() if len(d) >= 2]
+    if shared and rng.random() < 0.8:
+        classes = rng.choice(shared)
+        rng.shuffle(classes)
+        pool = [rng.choice(c) for c in classes[:rng.randint(2, min(4, len(classes)))]]
+        if rng.random() < 0.4:
+            pool += [rng.choice(U)]
+    else:
+        pool = rng.sample(U, rng.randint(1, 4))
+    r = rng.random()
+    if r < 0.35 and len(pool) >= 2:
+        a, b = pool[0], pool[1]
+        c = pool[2] if len(pool) > 2 else pool[0]
+        base = rng.choice([[a, b, a], [a, b, b, a], [a, b, c, a, b], [a, b, a, b, a], [b, a, a, b], [a, b, c, c, b, a], [a, a, b, a]])
+        extra = [rng.choice(pool) for _ in range(rng.randint(0, max(0, max_len - len(base))))] if rng.random() < 0.5 else []
+        return base + extra
+    return [rng.choice(pool) for _ in range(rng.randint(1, max_len))]
+
+
+def oracle_consumer(cfg, kind, ks):
+    """association-list semantics: running count of the element's class / first occurrence of each class"""
+    counts = {}
+    out = []
+    for k in ks:
+        c = cfg.cls(k)
+        counts[c] = counts.get(c, 0) + 1
+        if kind == "wc":
+            out.append(f"{k}:{counts[c]}")
+        elif counts[c] == 1:
+            out.append(str(k))
+    return ",".join(out)
+
+
+def consumer_program(cfg, kind, ks, default_funcs):
+    fn = "with_count" if kind == "wc" else "distinct"
+    args = "" if default_funcs else "h, e"
+    lits = ", ".join(str(k) if k < 2 ** 63 else f"({k % 2**64} + {k >> 64} * 2**64)" for k in ks)
+    return ((("" if default_funcs else cfg.prelude())) +
+            f"let g = [{lits}].to_generator().{fn}({args});\n"
+            "let r1 = g.to_array();\nlet r2 = g.to_array();\nlet rl = g.len();\n")
+
+
+def consumer_cell(v, kind):
+    if isinstance(v, tuple) and v and v[0] == "!":
+        return v[1]
+    if not isinstance(v, list):
+        return "?" + str(v)
+    if kind == "wc":
+        return ",".join(f"{x[0]}:{x[1]}" for x in v)
+    return ",".join(str(x) for x in v)
+
+
+def run_consumers(chk, n_cases, max_len):
+    rng = chk.rng
+    cases = []
+    # corpus: the witnesses of the seeded change C16/seed6 (`try_put_located` returning `bucket.last()` for a found key)
+    fixed = [(Cfg(8, 8, 3), "wc", [1, 4, 1], False), (Cfg(8, 8, 3), "ds", [1, 4, 1, 7, 4, 1], False),
+             (Cfg(8, 8, 1), "wc", [0, 1, 2, 0, 1, 2, 2, 0], False),
+             (Cfg(2 ** 70, 2 ** 64, 2 ** 64), "ds", [5, 5 + 2 ** 64, 5, 5 + 2 ** 64], True),
+             (Cfg(2 ** 70, 2 ** 64, 2 ** 64), "wc", [5, 5 + 2 ** 64, 5 + 2 ** 65, 5, 5 + 2 ** 64, 5], True)]
+    cases += fixed
+    for _ in range(n_cases):
+        if rng.random() < 0.08:
+            pool = [5 + j * 2 ** 64 for j in range(3)] + [6, 7 + 2 ** 64]
+            ks = [rng.choice(pool) for _ in range(rng.randint(1, max_len))]
+            cases.append((Cfg(2 ** 70, 2 ** 64, 2 ** 64), rng.choice(["wc", "ds"]), ks, True))
+        else:
+            cfg = gen_cfg(rng)
+            cases.append((cfg, rng.choice(["wc", "wc", "ds"]), gen_stream(rng, cfg, max_len), False))
+    reqs = [{"op": "map", "src": consumer_program(cfg, kind, ks, d), "get": ["r1", "r2", "rl"]} for cfg, kind, ks, d in cases]
+    mlines = [f"map crun {cfg.args()} {kind} " + ",".join(map(str, ks)) for cfg, kind, ks, d in cases]
+    resps = run_harness(reqs, per_req_timeout=30.0)
+    mouts = run_model(mlines)
+    for (cfg, kind, ks, dflt), resp, ml, mo in zip(cases, resps, mlines, mouts):
+        chk.evaluations += 1
+        fn = "with_count" if kind == "wc" else "distinct"
+        colliding = len({cfg.hash(k) if dflt is False else k % 2 ** 64 for k in ks}) < len({cfg.cls(k) for k in ks})
+        chk.count(f"consumer:{fn}:{'default-funcs' if dflt else cfg.kind()}" + (":colliding-stream" if colliding else ""))
+        replay = {"kind": "consumer", "fn": fn, "cfg": cfg.args(), "stream": [str(k) for k in ks], "default_funcs": dflt, "model_line": ml,
+                  "src": consumer_program(cfg, kind, ks, dflt)}
+        if "panic" in resp or "abort" in resp or "hang" in resp or resp.get("compile") != "ok" or resp.get("inst") != "ok":
+            chk.violation(f"map:{fn}:{'panic' if 'panic' in resp else 'not-run'}", f"{fn} over {ks} under [{cfg.args()}] did not run: {str(resp)[:300]}", replay)
+            continue
+        got = consumer_cell(parse_dump(resp["vals"]["r1"]), kind)
+        again = consumer_cell(parse_dump(resp["vals"]["r2"]), kind)
+        if got != again:
+            chk.violation(f"map:{fn}:reconsumed", f"{fn} over {ks} under [{cfg.args()}] gave {got} and then {again} when consumed again", replay)
+            continue
+        if dflt or cfg.consistent():
+            want = oracle_consumer(cfg, kind, ks)
+            if got != want:
+                chk.violation(f"map:{fn}:wrong", f"{fn}({'' if dflt else 'h, e'}) over {ks} under hash/eq config [{cfg.args()}] gives [{got}]; "
+                              f"over the classes of the equality it must give [{want}]", replay)
+                continue
+            n = cell(parse_dump(resp["vals"]["rl"]))
+            if n != str(len(want.split(",")) if want else 0):
+                chk.violation(f"map:{fn}:len", f"len() of {fn} over {ks} is {n}, the stream has {len(want.split(','))} elements", replay)
+                continue
+        if mo != got:
+            chk.violation(f"tie:map:{fn}", f"model and implementation disagree on {fn} over {ks} under [{cfg.args()}]: model [{mo}] implementation [{got}]",
+                          replay, no_input=True)
+            continue
+        chk.nontrivial.add(("consumer", fn, cfg.args(), tuple(ks)))
+
+
 CORPUS = [
     # (is_map, cfg args, ops): past failures / witnesses, always run first
     # equal collections must hash equally after a removal (fixed by 2e95929: the emptied bucket is dropped)
@@ -749,13 +893,15 @@ def run(chk):
     mouts = run_model(mlines)
     for (cfg, is_map, ops, vers, results, producer), resp, ml, mo in zip(cases, resps, mlines, mouts):
         check_history(chk, cfg, is_map, ops, vers, results, producer, resp, ml, mo)
+    enumerate_hash_keyed(chk)
+    run_consumers(chk, 700 if quick else 15000, 12 if quick else 30)
     chk.sample({"model_line": mlines[0], "model_out": mouts[0][:400]})
     chk.sample({"model_line": mlines[len(CORPUS)], "program": reqs[len(CORPUS)]["src"][:1500]})
 
     return chk.finish(rule="operation histories (length 1-15 quick / 1-40 thorough) over keys 0..7 on mappings and sets built with user hash "
                            "(k % hk) % m and equality a % k0 == b % k0 (injective … constant hash, identity … coarse equality, plus configurations "
                            "with out-of-range / erroring hash, erroring eq and hash inconsistent with eq, which are compared model-vs-implementation only); "
-                           "every version dumped after creation and again at the end; non-trivial = distinct (kind, config, history) that passed all comparisons")
+                           "every version dumped after creation and again at the end; plus streams (length 1-12 / 1-30) with colliding-but-unequal elements recurring in every order through the hash-keyed consumers with_count / distinct (user and default hash/eq); non-trivial = distinct (kind, config, history) that passed all comparisons")
 
 
 def replay(path):
